@@ -830,7 +830,8 @@ func runTree(index int) {
 	})
 	// the same clauses on the strict output, when there is one (a strict run may stop early)
 	sfirst := &rec{}
-	if _, sok := judgeCheck(t, strict, "check-strict", sfirst); !sok {
+	strictErr, sok := judgeCheck(t, strict, "check-strict", sfirst)
+	if !sok {
 		res.Count("strict_without_json", 1)
 	}
 	settle(sfirst, func() *rec {
@@ -848,7 +849,10 @@ func runTree(index int) {
 	res.Eval(1)
 	if badPresent || (ok && anyErr) {
 		dist("strict/with-errors")
-		if strict.RC == 0 && runSfw(cwd, "check", "--no-sandbox", "--strict", target).RC == 0 {
+		// one execution whose own output lists a file error and which still exits 0 is a
+		// violation as observed (a schedule-dependent break need not repeat); when only the
+		// non-strict run saw errors the strict run is repeated before it is reported
+		if strict.RC == 0 && ((sok && strictErr) || runSfw(cwd, "check", "--no-sandbox", "--strict", target).RC == 0) {
 			res.Violate("strict/exit-zero-despite-errors", fmt.Sprintf("tree %d: `sfw check --strict` exited 0 although files had errors (unanalysable files present=%v, errors in non-strict JSON=%v)", t.Index, badPresent, anyErr), strict.replay(t))
 		} else if strict.RC == 0 {
 			res.Inconcl(1)
